@@ -453,6 +453,13 @@ def cp2k_cases(draw):
         if draw(st.integers(0, 4)) == 0:
             # a section parameter (what follows the section name on its header line), e.g. &PRINT ON
             ups[tgt]["settings"] = [draw(st.sampled_from(["ON", "SILENT", "T"]))]
+    if draw(st.integers(0, 3)) == 0:
+        # two requested sections below one and the same section that the template lacks (MOTION->PRINT->VELOCITIES->EACH and
+        # MOTION->PRINT->TRAJECTORY->EACH on a template without &PRINT - what write_for_run_vel asks for)
+        base = draw(st.sampled_from(uniq)) if uniq and draw(st.booleans()) else None
+        par = (base + "->" if base else "") + draw(st.sampled_from(["PRINT3", "NEWPAR"]))
+        for leaf in ("VELOCITIES->EACH", "TRAJECTORY->EACH") if draw(st.booleans()) else ("AAA", "BBB"):
+            ups[f"{par}->{leaf}"] = {"data": {"MD": draw(st.sampled_from(["1", "5"]))}}
     rem = [draw(st.sampled_from(uniq + ["NOPE", "MOTION->NOPE"])) for _ in range(draw(st.integers(0, 2)))] if draw(st.booleans()) else []
     rem = [r for r in rem if not any(t == r or t.startswith(r + "->") or r.startswith(t + "->") for t in ups)]
     return {"roots": roots, "update": ups, "remove": rem}
